@@ -1,5 +1,5 @@
 """Property -> rule families.  Each entry is a list of callables taking the Run context."""
-import rf_alloc, rf_state, rf_tables, rf_sig, rf_union, rf_flow, rf_vocab, rf_mir2c, rf_code, rf_bounds, rf_fold
+import rf_alloc, rf_state, rf_tables, rf_sig, rf_union, rf_flow, rf_vocab, rf_mir2c, rf_code, rf_bounds, rf_fold, rf_proto
 from lib import facts as F
 
 
@@ -162,7 +162,31 @@ def c04_rf18(run):
     run.min_instances('RF18', 8)
 
 
+def c16_rf16(run):
+    rf_proto.rf16a(run)
+    rf_proto.rf16b(run)
+    rf_proto.rf16i(run)
+    run.min_instances('RF16a', 5)
+    run.min_instances('RF16b', 4)
+
+
+def c13_rf16(run):
+    rf_proto.rf16c(run)
+    rf_proto.rf16d(run)
+    rf_proto.rf16e(run)
+    run.min_instances('RF16d', 8)
+    run.min_instances('RF16e', 4)
+
+
+def c14_rf16f(run):
+    rf_proto.rf16f(run)
+    run.min_instances('RF16f', 15)
+
+
 PLAN = {
+    'C13': [c13_rf16],
+    'C14': [c14_rf16f],
+    'C16': [c16_rf16],
     'C01': [c02_rf8, c02_rf23, c01_rf18],
     'C04': [c04_rf18],
     'C12': [c12_rf13],
